@@ -86,8 +86,11 @@ CLAIMED = {
          "accessor / query is verified against a contract whose result is a tuple value or a container allocated by the call (Vertex.links, "
          "Link.vertices, Universe.vertices, BaseObject.universes, neighbors() - separate lists for the caller and for the memo -, find_links, "
          "bft/dft_*), so mutating it cannot reach the graph or the memo; (3) constructors and builders take iterables and are verified to store "
-         "only de-duplicated copies (value semantics of the owned fields). NOT proved: UniverseLaws.__init__/edge_whitelist (nested dict copy "
-         "and MappingProxyType are outside the symbolic subset): trusted contract + labelled bounded stand-in on every run."),
+         "only de-duplicated copies (value semantics of the owned fields). UniverseLaws: the constructor is verified to store a DEEP copy of "
+         "edge_whitelist (a new mapping with the argument's content that consists only of dict objects which did not exist before - no dict, "
+         "outer or inner, shared with the caller) and the edge_whitelist getter to hand out an immutable snapshot without mutable parts; nested "
+         "mappings are modelled by a content value and the set of dict objects they consist of, the three shapes the code can use "
+         "(MappingProxyType snapshot, per-entry dict() deep copy, dict() shallow copy) have an encoded semantics."),
  "C13": ("proof", "6/C13", "(a) the contracts of neighbors, find_links and of every accessor are proved read-only on all outcomes including the "
          "abnormal ones (a filter raising at any link: loop invariant, so at the k-th invocation for every k; memo written only after the scan); "
          "(b) make_pyvis_net is verified on all 66 paths (rvfunc / refunc / pyvis raising anywhere) against 'attribute sets and values unchanged, "
@@ -145,7 +148,8 @@ CLAIMED = {
  "C19": ("proof", "6/C19", "Both setters are verified (mutually, each against the other's contract) against a total reference model of "
          "'bind'; I19 is proved preserved by the setters and Universe.__init__; 'every assignment succeeds' = the contracts have no "
          "exceptional outcome and every implicit AttributeError/IndexError path is proved infeasible; rule getters return the stored "
-         "constructor values. UniverseLaws.__init__ (edge_whitelist copying) is a TRUSTED contract here (outside the symbolic subset)."),
+         "constructor values; UniverseLaws.__init__ and the edge_whitelist getter are verified too (deep copy in, immutable snapshot of the "
+         "same content out; ValueError with nothing observable changed for a malformed whitelist) - no trusted contract is left for this property."),
 }
 NA = {
 }
